@@ -26,6 +26,71 @@ def impl_family(fam: dict) -> dict:
     return history.run_family(fam)
 
 
+def impl_inplace(_: dict) -> dict:
+    """The same array object is validated again after its shape / dtype was changed IN PLACE: every validation judges the object
+    as it is then (function, dataclass, NamedTuple, pydantic model, standalone check; numpy and torch)."""
+    import dataclasses
+    from typing import Annotated, NamedTuple
+
+    import numpy as np
+    import pydantic
+    import torch
+
+    import dltype
+
+    problems, n = [], 0
+
+    def outcome(fn):
+        try:
+            fn()
+            return "accept"
+        except dltype.DLTypeError as e:
+            return type(e).__name__
+        except pydantic.ValidationError:
+            return "pydantic.ValidationError"
+        except BaseException as e:  # noqa: BLE001
+            return "OTHER " + type(e).__name__
+
+    for lib in ("np", "torch"):
+        base = np.ndarray if lib == "np" else torch.Tensor
+        T = Annotated[base, dltype.FloatTensor["n 3"]]
+
+        def f(x):
+            return None
+
+        f.__annotations__ = {"x": T}
+        g = dltype.dltyped()(f)
+        DC = dltype.dltyped_dataclass()(dataclasses.make_dataclass("DC", [("x", T)]))
+        NT = dltype.dltyped_namedtuple()(NamedTuple("NT", [("x", T)]))
+        PM = pydantic.create_model("PM", __config__=pydantic.ConfigDict(arbitrary_types_allowed=True), x=(T, ...))
+        ann = dltype.FloatTensor["n 3"]
+        forms = {"function": lambda a: g(a), "dataclass": lambda a: DC(a), "namedtuple": lambda a: NT(a), "pydantic": lambda a: PM(x=a),
+                 "model_validate": lambda a: PM.model_validate({"x": a}), "check": lambda a: ann.check(a, "x")}
+        for fname, call in forms.items():
+            a = np.zeros((2, 3), dtype=np.float32) if lib == "np" else torch.zeros((2, 3), dtype=torch.float32)
+            seq = [("as built (2,3)", None, "accept")]
+            if lib == "np":
+                seq += [("reshaped in place to (3,2)", lambda a: setattr(a, "shape", (3, 2)), "DLTypeShapeError"),
+                        ("reshaped in place to (6,)", lambda a: setattr(a, "shape", (6,)), "DLTypeNDimsError"),
+                        ("back to (2,3)", lambda a: setattr(a, "shape", (2, 3)), "accept"),
+                        ("reshaped in place to (1,2,3)", lambda a: setattr(a, "shape", (1, 2, 3)), "DLTypeNDimsError")]
+            else:
+                seq += [("transposed in place to (3,2)", lambda a: a.t_(), "DLTypeShapeError"),
+                        ("back to (2,3)", lambda a: a.t_(), "accept"),
+                        ("unsqueezed in place to (1,2,3)", lambda a: a.unsqueeze_(0), "DLTypeNDimsError"),
+                        ("resized in place to (4,3)", lambda a: a.resize_(4, 3), "accept"),
+                        ("resized in place to (4,2)", lambda a: a.resize_(4, 2), "DLTypeShapeError")]
+            for label, change, want in seq:
+                if change is not None:
+                    change(a)
+                n += 1
+                got = outcome(lambda: call(a))
+                if got != want:
+                    problems.append({"what": "the same object, changed in place since an earlier validation, was not judged as it is now",
+                                     "library": lib, "form": fname, "state": label, "expected": want, "got": got})
+    return {"n": n, "problems": problems}
+
+
 def gen_family(rnd, threads: int = 0, nested: bool = False) -> dict | None:
     with_prov = rnd.random() < 0.4
     base = GC.gen_case(rnd, tuples=0, plain=0, optionals=0, with_provider=1.0 if with_prov else 0.0, with_ret=0.4)
@@ -54,7 +119,8 @@ def gen_family(rnd, threads: int = 0, nested: bool = False) -> dict | None:
     funcs.append({"name": "f2", "params": [{"name": "y", "alias": rnd.choice(an), "opt": False}], "ret": {"alias": rnd.choice(an), "opt": False}, "provider": None if rnd.random() < 0.5 else pname})
     order = [f["name"] for f in funcs]
     rnd.shuffle(order)
-    fam = {"aliases": aliases, "functions": funcs, "order": order, "providers": providers, "steps": [], "threads": threads}
+    fam = {"aliases": aliases, "functions": funcs, "order": order, "providers": providers, "steps": [], "threads": threads,
+           "lazy": rnd.random() < 0.25}   # hints resolvable only at the first call, one decorator object shared by the siblings
 
     def value_for(p: dict, base_args: dict):
         if "alias" in p:
@@ -155,8 +221,13 @@ def run(tier: str, seed: int, rep: Report, model: Model) -> dict:
     worker = ImplWorker("harness.props.c09")
     try:
         results = worker.call_many("impl_family", [f for _, f in fams], timeout=60.0)
+        inplace = worker.call("impl_inplace", {}, timeout=120.0)
     finally:
         worker.close()
+    rep.case("same_object_changed_in_place", inplace)
+    rep.count("inplace_observations", inplace.get("n", 0))
+    for pr in inplace.get("problems", [{"what": "the in-place run did not finish", "detail": inplace}] if "problems" not in inplace else []):
+        rep.violation(pr)
     for (kind, fam), res in zip(fams, results):
         if "__skipped__" in res:
             continue
@@ -165,7 +236,7 @@ def run(tier: str, seed: int, rep: Report, model: Model) -> dict:
                  "functions": {f["name"]: [(p["name"], (p.get("alias", "inline") + ("|None" if p.get("opt") else ""))) for p in f["params"]] for f in fam["functions"]},
                  "steps": len(fam["steps"]), "provider": fam.get("providers")}
         rep.case(str(brief) + str(fam["steps"]), brief, nontrivial=mixed)
-        rep.count(f"{kind}:{res.get('v')}")
+        rep.count(f"{kind}{':lazy' if fam.get('lazy') else ''}:{res.get('v')}")
         rec = {"family": brief, "steps": fam["steps"]}
         if res.get("v") != "ok":
             rep.violation({"what": "the family could not be decorated / run", "result": {k: v for k, v in res.items() if k != "src"}, **rec})
